@@ -169,6 +169,7 @@ type Run struct {
 	notes            []string
 	external         map[string]bool
 	assumedContracts map[string]bool
+	seenCommon       map[string]bool
 }
 
 func (r *Run) execute() int {
@@ -314,9 +315,28 @@ func (r *Run) executeFacet(facet string) int {
 			}
 		}
 		if facet != "" {
-			for _, o := range keep {
-				o.Name += "~" + facet
+			// clauses that do not belong to this facet alone are proved once, in the first facet that meets them
+			if r.seenCommon == nil {
+				r.seenCommon = map[string]bool{}
 			}
+			var mine []*Obligation
+			for _, o := range keep {
+				own := false
+				for _, t := range o.Tags {
+					if strings.TrimSpace(strings.TrimPrefix(t, "only ")) == r.prop.ID+"."+facet {
+						own = true
+					}
+				}
+				if !own {
+					if r.seenCommon[o.Name] {
+						continue
+					}
+					r.seenCommon[o.Name] = true
+				}
+				o.Name += "~" + facet
+				mine = append(mine, o)
+			}
+			keep = mine
 			rep.Key += " [" + facet + "]"
 		}
 		rep.Obligations = 0
